@@ -38,6 +38,14 @@ independent oracle written here from the property text.
             files as they are now, (3) a FRESH interpreter (harness/wksr_fresh.py, one new process
             per step, never reused) given the same client and the same stored file at that moment,
             (4) the model.  Nothing the receiver answered earlier may influence an answer.
+  config    (harness/c20_receiver.py) the real pydantic models of config_wksr.py on generated wksr.yaml documents (tls: files,
+            require_client_cert spellings / absent, whitelist spellings; ksr: max_size around 0 and 1 MiB, paths, signer
+            configuration file), the whitelist entry validator on ~80 strings, the REAL kskm.tools.wksr.main() with a
+            recording uvicorn.run (harness/wksr_main.py) x argv variants: what the TLS server is told; the real
+            request_peercert_digest on real certificates.
+  route     (harness/c20_receiver.py) the real middleware with call_next = the real upload_post (save_ksr + validate_ksr +
+            notify + result page): 7 kinds of peer x 18 kinds of upload x 4 notification set-ups; outcome, files created,
+            body reads and the ORDER of events against the model's handleUpload and the property's text.
 """
 
 from __future__ import annotations
@@ -59,6 +67,9 @@ from lib import REPO, Result, hexs, run_driver, same_outcome
 DRIVER = "kskm_driver_pkgc"
 
 ASSUMPTIONS = [
+    "configuration model: values of the declared type or absent keys are modelled (loadTls / loadKsrSection); pydantic's lax coercions of other types ('yes', 1, '5', 2.0) are answered `unsupported` and judged by the specification only; "
+    "FilePath existence, the YAML parser and EmailStr are parameters / not modelled",
+    "route: request_peercert_client_subject fails exactly when request_peercert_digest fails (both start with request_peercert); template rendering + SMTP hand-off is one parameter `mailOk`",
     "UploadFile.size is the number of body octets (starlette computes it while spooling the part); the gate is on that number",
     "bool(x509.Certificate) is True (the class defines neither __bool__ nor __len__; asserted on the real class in this run), so the "
     "`digest is None` pass-through branch of dispatch is unreachable",
@@ -69,6 +80,8 @@ ASSUMPTIONS = [
     "histories: the clock of the horizon rule is pinned (5 days before the first inception of the 2017-Q2 KSR) in the long-lived and in the fresh interpreters alike; the upload clock advances between steps",
 ]
 TRUSTED = [
+    "harness/wksr_main.py stands in for uvicorn (`uvicorn.run` records its keyword arguments, `HttpToolsProtocol` is an empty class): that the TLS stack honours ssl_cert_reqs / ssl_ca_certs / ssl_ciphers is not exercised",
+    "route stream: Jinja2 templates and smtplib.SMTP are replaced by recorders (what is rendered / sent is not part of C20; WHETHER and WHEN it happens is compared)",
     "harness/wksr_stubs.py stands in for fastapi / starlette (HTTPException, status codes, base classes); TLS, ASGI and multipart parsing are not exercised",
     "pathlib.PurePosixPath joining semantics (modelled in Kskm/Wksr.lean, compared on random strings)",
     "harness/wksr_fresh.py: a new CPython process per history step as the reference for 'no influence of earlier uploads' (same stubs, same fake request objects)",
@@ -1063,6 +1076,10 @@ def stream_history(res: Result, tier: str, driver_ok: bool) -> None:
 
 STREAMS = [("upload", stream_upload), ("whitelist", stream_whitelist), ("verdict", stream_verdict), ("history", stream_history)]
 
+import c20_receiver  # noqa: E402  (streams `config` and `route`: configuration model, TLS options, the upload route end to end)
+
+STREAMS += c20_receiver.STREAMS
+
 
 def run(tier: str, driver_ok: bool) -> Result:
     res = Result("C20")
@@ -1074,6 +1091,11 @@ def run(tier: str, driver_ok: bool) -> Result:
         "the options named in two configuration sections (num_bundles, validate_signatures of request_policy / response_policy, read off the pydantic models) set to every pair of values, equal and different, x honest / bit-flipped previous SKR and upload; "
         "history: 30 written + random sequences of 2..5 uploads in one process with previous-SKR content / ksrsigner.yaml / wksr.yaml (whitelist, limits) / upload directory changed between them "
         "(same KSR twice, A-B-A, refused-then-good, ceremony-then-replay), every step vs property text, signer's functions now, a fresh interpreter per step, model; "
+        "config: wksr.yaml documents (tls files present / missing / directory / absent, require_client_cert true / false / absent / 'yes' / 'no' / 1 / 0 / None / 2, 19 whitelist spellings x required / optional, ciphers; "
+        "ksr max_size {-2^63, -1, 0, 1, 2, 1 MiB - 1, 1 MiB, 1 MiB + 1, 2^63, '5', 1.5, 2.0, True, None, absent}, content types, upload paths, signer configuration file) + random documents; ~80 whitelist entry strings; "
+        "kskm.tools.wksr.main() x {require true / false / absent, bad whitelist} x ciphers {absent, 1, 3, empty} x argv {default, --debug, --hostname/--port, port 0, ::1}; request_peercert_digest on real certificates; "
+        "route: middleware + upload_post on peers {listed, unlisted, upper-case entry, empty list, no TLS, no certificate, garbage} x uploads {accepted, accepted-chained, refused by policy / chain, not XML, truncated, bad / default signer configuration, "
+        "damaged previous SKR, wrong / no content type, no size, size = limit, size = limit + 1, hostile / missing name, missing upload dir, bit-flipped signature} x notify {none, empty smtp_server, delivered, SMTP refuses}; "
         "non-trivial = distinct (stream, input)"
     )
     for name, fn in STREAMS:
@@ -1085,6 +1107,14 @@ def run(tier: str, driver_ok: bool) -> Result:
     res.notes.append(
         "an invalid PREVIOUS SKR is not reported as ERROR: load_skr wraps its PolicyViolation in RuntimeError, which validate_ksr does not catch "
         "(C20.previous_skr_failure_propagates; exercised in stream 'verdict' with response_policy num_bundles=8)"
+    )
+    res.notes.append(
+        "client verification can be configured down to ssl.CERT_OPTIONAL (require_client_cert: false) but not by omission (the key has no default) and never to CERT_NONE; under CERT_OPTIONAL a client without "
+        "certificate still never reaches a handler: request_peercert raises TypeError in the middleware (C20.optional_tls_still_needs_certificate; route stream peer 'noCert')"
+    )
+    res.notes.append(
+        "upload_post stores the upload BEFORE it validates it and never removes it: a KSR reported ERROR, one whose validation raises (HTTP 500), and one whose notification mail fails all stay in the upload directory "
+        "(C20.upload_effects_order; confinement and the verdict are unaffected)"
     )
     res.notes.append(
         "the whitelist comparison is on the text: the configuration accepts upper-case hex fingerprints ([0-9a-fA-F]+) but the computed digest is "
